@@ -279,6 +279,9 @@ def negative_controls(traces):
         t["fin"]["iterations"] += 1
         out.append(("iterations", t))
         t = json.loads(json.dumps(base))
+        t["mb"] += 1                                  # buffers sized by something else
+        out.append(("buffer_cap", t))
+        t = json.loads(json.dumps(base))
         t["evs"] = t["evs"][:-1]                      # final evaluation dropped
         out.append(("event_dropped", t))
         if len(base["evs"]) >= 2:
@@ -337,6 +340,7 @@ class Recorder:
                     c, t = rec._test(alg, state, meta["tol"])
                     if not tr["evs"]:
                         tr["b"], tr["buf"] = rec._bufs(alg, state)
+                        tr["mb"] = tr["buf"][1][-1]     # diag: (b, cap) / H: (b, mb + 1, mb)
                     r = cond_fun(state)
                     tr["evs"].append({"c": c, "t": t, "r": bool(r)})
                     return r
@@ -508,6 +512,61 @@ def ref_krylov(A, v, jmax):
     return Q, hs
 
 
+def ref_mgs_loss(A_t, v_t, cols):
+    """Orthogonality defect max|Q^H Q - I| of the first `cols` columns produced by the documented mechanism - Arnoldi
+    with ONE modified Gram-Schmidt pass - run by the harness in the working precision of A_t.  Used only to
+    classify an observed loss of orthogonality as inherent to the mechanism (same order) or not."""
+    A_t = np.asarray(A_t)
+    dt = A_t.dtype
+    n = A_t.shape[0]
+    Q = np.zeros((n, cols), dtype=dt)
+    q = np.asarray(v_t, dtype=dt)
+    Q[:, 0] = q / np.linalg.norm(q)
+    for j in range(cols - 1):
+        w = A_t @ Q[:, j]
+        for i in range(j + 1):
+            w = w - (np.conj(Q[:, i]) @ w).astype(dt) * Q[:, i]
+        nw = np.linalg.norm(w)
+        if not nw > 0:
+            return float("inf")
+        Q[:, j + 1] = (w / nw).astype(dt)
+    Qc = Q.astype(np.complex128)
+    return float(np.abs(Qc.conj().T @ Qc - np.eye(cols)).max())
+
+
+def gate(hs, kdim, n, tol, sA, detectable, s_obs, cap):
+    """Floating-point visibility of a breakdown, judged on the reference residual norms hs[j-1] = h_(j+1,j) of the
+    run on the *cast* data (complex128 arithmetic, two re-orthogonalisation passes).  cola's tests are relative to the
+    first residual hs[0].  Returns (effective KDim, detectable):
+      - the exact breakdown at KDim counts as detectable only if the reference residual there is 100x below the
+        threshold (rounding the start vector to float32 leaves components outside the invariant subspace which
+        the Krylov process amplifies);
+      - if the loop stopped at a step s_obs < KDim whose reference residual is within 100x of the threshold, the
+        Krylov space is numerically invariant there and s_obs is taken as the effective KDim."""
+    if hs is None or kdim is None or not len(hs):
+        return kdim, detectable
+    ref = hs[0] if kdim > 1 else sA
+    if kdim < n and kdim <= len(hs) and not hs[kdim - 1] <= 1e-2 * tol * ref:
+        detectable = False
+    amb = [j + 1 for j in range(1, min(len(hs), kdim)) if hs[j] <= 1e2 * tol * hs[0]]
+    if amb and amb[0] <= s_obs < min(cap, kdim):
+        return s_obs, True
+    return kdim, detectable
+
+
+def ref_for(A_t, v_t, kdim, n, jmax, thr, trust):
+    """Reference basis / residuals on the cast data: (K for the span test, hs)."""
+    Ac = np.asarray(A_t, dtype=np.complex128)
+    sA = float(np.abs(Ac).sum(1).max())
+    steps = min(n, max(jmax, kdim if (trust and kdim is not None) else jmax))
+    Qr, hs = ref_krylov(Ac, np.asarray(v_t, dtype=np.complex128), steps)
+    j = 1
+    lim = min(Qr.shape[1], jmax, kdim if (trust and kdim is not None) else jmax)
+    while j < lim and hs[j - 1] > thr * sA:
+        j += 1
+    return Qr[:, :j], hs
+
+
 def span_defect(Qj, K):
     """max over columns k of K of || (I - Qj Qj^+) k || / ||k||  (Qj assumed to have independent columns)."""
     Qj = np.asarray(Qj, dtype=np.complex128)
@@ -546,6 +605,19 @@ def spec_list(spec):
 
 def max_grade(spec):
     return max([int(s["mult"]) for s in spec], default=1)
+
+
+def cap_violations(viol, per=40):
+    """Keep at most `per` violations per abstract signature (clause + attrs other than the case coordinates); the
+    verdict is unaffected (a signature with one violation keeps it), only the number of replay files is bounded."""
+    seen, out = {}, []
+    skip = {"n", "max_iters", "tol", "element", "j", "first_bad", "n_bad", "n_spurious", "min_kdim", "ref_mgs_loss"}
+    for v in viol:
+        sig = (v.clause, json.dumps({k: x for k, x in v.attrs.items() if k not in skip}, sort_keys=True, default=str))
+        seen[sig] = seen.get(sig, 0) + 1
+        if seen[sig] <= per:
+            out.append(v)
+    return out, len(viol)
 
 
 def fmt(x):
